@@ -171,6 +171,8 @@ pub enum Step {
     ClearGrad { h: usize, via_replace: bool },
     /// `GradientDescent::new(lr).update(params)`
     Update { lr: f64, params: Vec<usize> },
+    /// a brand-new plain (untracked) array with the same dimensions and values as `h`: `Array::from((dims, values))`
+    Copy { h: usize },
     /// ownership probe: move the handle into `Vec::<Float>::from(..)` (succeeds iff it is the sole owner of
     /// its buffer), then rebuild the array (values, flag, stashed gradient) in the same slot
     ProbeSole { h: usize },
